@@ -17,7 +17,13 @@
       (`c05_static_indep_T`);
     * strain fractions: each grid point's triple sums to 1 (`axial_strains_sum_one`), equal thirds without
       lattice block (`axial_strains_default_thirds`);
-    * unit conversion (`gpa_factor`).
+    * unit conversion (`gpa_factor`);
+    * the tie to the source at data level (`c05_glue_…`): every def of `cij/core/full_modulus.py` and
+      `Calculator._calculate_pressure_static` is re-translated on every run into statement lists over expression trees
+      (`Generated/FullModulusGlue.lean`), and the model functions above (`fitModulus`, `getStaticModulus`, `getAxialStrains`,
+      `modulusTotal`, `staticPressure`) ARE the interpretation of those statements for all inputs; the strains of the static fit
+      are functions of the static table's own volume column and of the grid only; `fit_modulus` differs from its sibling in
+      `cij/cli/static.py` exactly in V·c / degree + 1 / division by V; `_from_gpa` is the helper whose factor is `gpaInAtomicUnits`.
   Outside the theorems (entered as data / tied by the correspondence and the oracle of harness/c05.py):
     qha's fine grid and Eulerian strains, the phonon contribution itself (C01–C04), the optional symmetry
     filling (C08/C09), rounding inside numpy.polyfit.
@@ -31,6 +37,8 @@ import Generated.AdapterSpec
 import CijProofs.Lemmas.AdapterGuardSource
 import Generated.ReadersSpec
 import CijProofs.Lemmas.ShearGlueSource
+import CijProofs.Lemmas.FullModulusGlueAxial
+import CijProofs.Lemmas.StaticUnits
 namespace Cij.C05
 
 open Cij.LeastSq Cij.FullModulus
@@ -271,11 +279,11 @@ example : gradient [(1 : ℚ), 4, 9, 16] = some [3, 4, 6, 7] := by decide +kerne
 
 end Units
 
-/-! #### tie to the source: defaults and bodies re-read from full_modulus.py / calculator.py on this run
+/-! #### tie to the source: the defaults re-read from full_modulus.py / calculator.py on this run
 
-The translator compares the bodies of `fit_modulus`, `get_axial_strains`, `get_static_modulus`, `modulus_adiabatic`,
-`modulus_isothermal` and the last line of `_calculate_pressure_static` with the canonical text the model implements, and
-emits the default orders.  The model's defaults are those numbers. -/
+`Generated/FullModulusSpec.lean` (now written by tools/gens/fullmodulus_src.py) holds the default orders read off the signatures, the
+degree offset read off the translated `numpy.polyfit` call, and a flag saying whether the translated trees are the ones the model was
+written against.  The model's defaults are those numbers.  (The trees themselves are consumed by the `c05_glue_…` theorems below.) -/
 
 theorem c05_defaults_are_source {α : Type} [Add α] [Sub α] [Mul α] [Div α] [Neg α] [OfNat α 0] [OfNat α 1] [BEq α]
     (inp : FullModulus.Inputs α) (moduli strains energies strainArray vArray : List α) :
@@ -284,6 +292,250 @@ theorem c05_defaults_are_source {α : Type} [Add α] [Sub α] [Mul α] [Div α] 
       FullModulus.staticPressure strains energies strainArray vArray Generated.staticPressureDefaultOrder ∧
     Generated.fitModulusDegOffset = 1 ∧ Generated.fullModulusBodiesCanonical = true :=
   ⟨rfl, rfl, rfl, rfl⟩
+
+/-! #### tie to the source, at data level: `full_modulus.py` translated statement by statement (round 4)
+
+`tools/gens/fullmodulus_src.py` re-translates EVERY def of `cij/core/full_modulus.py` and `Calculator._calculate_pressure_static` into
+statement lists over expression trees (`Generated/FullModulusGlue.lean`; nothing is compared as text, locals are renamed canonically).
+`CijModel/FullModulusGlue.lean` is a small honest interpreter of those trees (shape-checked numpy arithmetic, class properties,
+instance attributes, the life cycle of the task list).  The theorems below say that the hand-written model this file's other theorems
+are about IS that interpretation, for every field of scalars and all inputs. -/
+
+section Glue
+open Cij.FMGlue Generated.FullModulusGlue
+variable {α : Type} [Field α] [BEq α]
+
+/-- every `def` of full_modulus.py is a method of the one class and is translated (none pinned, none skipped); no duplicate; no
+class-level statement besides the defs; which are properties / LazyProperties / plain methods -/
+theorem c05_glue_is_source_inventory :
+    definedFunctions = cls.map (fun m => "FullThermalElasticModulus." ++ m.name) ∧ definedFunctions.Nodup ∧ cls.length = 11 ∧
+    classOtherStatements = [] ∧ classBases = [] ∧ moduleClasses = ["FullThermalElasticModulus"] ∧ moduleOtherStatements = [] ∧
+    cls.map (fun m => (m.name, m.kind)) =
+      [("__init__", "method"), ("modulus_keys", "property"), ("volumes", "property"), ("v_array", "property"),
+       ("fit_modulus", "method"), ("get_static_modulus", "method"), ("_get_init_strain", "method"),
+       ("get_axial_strains", "method"), ("calculate_phonon_contribution", "method"),
+       ("modulus_adiabatic", "LazyProperty"), ("modulus_isothermal", "LazyProperty")] ∧
+    pressureStatic.name = "_calculate_pressure_static" ∧ pressureStatic.kind = "method" := by
+  decide +kernel
+
+/-- `self.volumes` is the static table's OWN volume column in file order, `self.v_array` the calculator's grid, `self.modulus_keys`
+the calculator's key list -/
+theorem c05_glue_is_source_accessors (C : Ctx α) (n : Nat) (attrs : Env α) (hw : Wired attrs) :
+    callV cls C (n + 1) attrs "volumes" [] = some (.ar (C.calculator.elastData.volumes.map (·.volume))) ∧
+    callV cls C (n + 1) attrs "v_array" [] = some (.ar C.calculator.vArray) ∧
+    callV cls C (n + 1) attrs "modulus_keys" [] = some (.keys C.calculator.modulusKeys) := by
+  unfold callV
+  rw [volumes_src C n attrs hw, v_array_src C n attrs hw, modulus_keys_src C n attrs hw]
+  exact ⟨rfl, rfl, rfl⟩
+
+/-- **`fit_modulus`**: the translated statements evaluate to the model's `fitModulus` on `inputsOf` — Eulerian strains of the static
+table's own volumes and of the grid, both referred to the table's first row; `numpy.polyfit` of `volumes * moduli` with degree
+`order + 1`; `numpy.polyval` on the grid strains divided by the grid — for every `moduli` and every `order`, and with the default order of the
+source (2: a cubic) when none is given -/
+theorem c05_glue_is_source_fit (C : Ctx α) (n : Nat) (attrs : Env α) (hw : Wired attrs) (table : List (String × List α))
+    (m : List α) (k : Nat) (hv : vols C ≠ []) (hm : m.length = (vols C).length) :
+    callV cls C (n + 2) attrs "fit_modulus" [.ar m, .nat k] = (fitModulus (inputsOf C table) m k).map .ar ∧
+    callV cls C (n + 2) attrs "fit_modulus" [.ar m]
+      = (fitModulus (inputsOf C table) m Generated.fitModulusDefaultOrder).map .ar ∧
+    Generated.fitModulusDefaultOrder + Generated.fitModulusDegOffset = 3 := by
+  unfold callV
+  rw [fit_src C n attrs hw table m k hv hm, fit_default_src C n attrs hw table m hv hm]
+  refine ⟨?_, ?_, by decide⟩
+  · cases fitModulus (inputsOf C table) m k <;> rfl
+  · have h2 : Generated.fitModulusDefaultOrder = 2 := rfl
+    rw [h2]
+    cases fitModulus (inputsOf C table) m 2 <;> rfl
+
+/-- **`get_static_modulus(key)`** = the model's `getStaticModulus`: the values of `key` per volume in file order (KeyError when a volume
+lacks it), `_from_gpa`, `fit_modulus` with the default order.  `htab`: the table handed to the model holds that column under the key's name. -/
+theorem c05_glue_is_source_static (C : Ctx α) (n : Nat) (attrs : Env α) (hw : Wired attrs) (table : List (String × List α))
+    (key : Key) (name : String) (htab : table.lookup name = columnOf C key) (hv : vols C ≠ []) :
+    callV cls C (n + 3) attrs "get_static_modulus" [.key key] = (getStaticModulus (inputsOf C table) name).map .ar := by
+  unfold callV
+  rw [static_src C n attrs hw table key hv]
+  have : getStaticModulus (inputsOf C table) name
+      = (columnOf C key).bind fun col => fitModulus (inputsOf C table) (fromGpa C.gpa col) := by
+    unfold getStaticModulus
+    simp only [inputsOf, htab]
+    rfl
+  rw [this]
+  cases (columnOf C key).bind fun col => fitModulus (inputsOf C table) (fromGpa C.gpa col) <;> rfl
+
+/-- **the strains of the static fit are functions of the static table's own volume column and of the grid only** — syntactically:
+`fit_modulus` reads `self.volumes` and `self.v_array` and nothing else of the object, calls no other method, and calls exactly
+`calculate_eulerian_strain` (twice), `numpy.polyfit`, `numpy.polyval`; `self.volumes` is `[v.volume for v in self.elast_data.volumes]`,
+`self.v_array` is `self.calculator.v_array`, `self.elast_data` is bound once, in `__init__`, to `self.calculator.elast_data`; no
+method of the class reads the phonon file (`qha_input`) or assigns `elast_data` / `calculator` again -/
+theorem c05_glue_static_fit_reads_own_volumes :
+    m_fit_modulus.selfReads = [["volumes"], ["volumes"], ["volumes"], ["v_array"], ["volumes"], ["v_array"]] ∧
+    m_fit_modulus.selfCalls = [] ∧
+    m_fit_modulus.libCalls = ["qha.grid_interpolation.calculate_eulerian_strain", "qha.grid_interpolation.calculate_eulerian_strain",
+      "numpy.polyfit", "numpy.polyval"] ∧
+    m_volumes.body = [.ret (.fn1 "numpy.array" (.compAttr "volume" (.self ["elast_data", "volumes"])))] ∧
+    m_v_array.body = [.ret (.self ["calculator", "v_array"])] ∧
+    m_init.body = [.setSelf "calculator" (.param "calculator"), .setSelf "elast_data" (.self ["calculator", "elast_data"]),
+      .callProc "calculate_phonon_contribution"] ∧
+    (cls.all fun m => m.selfReads.all fun p => !p.contains "qha_input") = true ∧
+    ((cls.filter fun m => m.name != "__init__").all fun m => m.body.all fun s =>
+      match s with
+      | .setSelf a _ => a != "elast_data" && a != "calculator"
+      | _ => true) = true := by
+  decide +kernel
+
+/-- … semantically: two calculators with the same strain function, the same volume column in their static tables and the same grid get
+the same static fit for the same ordinates, whatever their PHONON files (volumes, energies), table values, lattice blocks, key lists,
+settings and phonon parts are -/
+theorem c05_glue_static_fit_indep_of_phonon_file (C C' : Ctx α) (n : Nat) (attrs attrs' : Env α) (hw : Wired attrs) (hw' : Wired attrs')
+    (m : List α) (k : Nat) (hs : C.strain = C'.strain) (hvol : vols C = vols C')
+    (hgrid : C.calculator.vArray = C'.calculator.vArray) (hv : vols C ≠ []) (hm : m.length = (vols C).length) :
+    callV cls C (n + 2) attrs "fit_modulus" [.ar m, .nat k] = callV cls C' (n + 2) attrs' "fit_modulus" [.ar m, .nat k] :=
+  fit_reads_only C C' n attrs attrs' hw hw' m k hs hvol hgrid hv hm
+
+/-- **`get_axial_strains()`** = the model's `getAxialStrains`: ones (equal thirds after the normalisation of C04's task parameters)
+when there is no lattice block; otherwise per axis `i` the fit of `lattice_params[:, i]`, the edge replication, the centred ratio, and
+every grid point's triple divided by its own sum (`keepdims=True`) -/
+theorem c05_glue_is_source_axial (C : Ctx α) (n : Nat) (attrs : Env α) (hw : Wired attrs) (table : List (String × List α))
+    (hwf : WF C) :
+    callV cls C (n + 3) attrs "get_axial_strains" [] = (getAxialStrains (inputsOf C table)).map .mat := by
+  unfold callV
+  rw [axial_src C n attrs hw table hwf.vols_ne hwf.grid_ne hwf.lattice]
+  cases getAxialStrains (inputsOf C table) <;> rfl
+
+/-- **the strain-fraction formula as translated**: one pass of `for i in range(3)` fits column `i` of the lattice block, binds
+`tmp = params[[0, *range(len(params)), -1]]` (= `tmpOf`) and writes into column `i` of the strain matrix the list `colF`, whose entries
+are: first grid point `(p₁ − p₀)/(p₁ + p₀)`, interior `(p_{k+1} − p_{k−1})/(p_{k+1} + p_{k−1})`, last `(p_{n−1} − p_{n−2})/(p_{n−1} + p_{n−2})` -/
+theorem c05_glue_is_source_axial_formula (C : Ctx α) (n : Nat) (attrs : Env α) (hw : Wired attrs) (table : List (String × List α))
+    (loc : Env α) (i : Nat) (hi : i < 3) (f : Nat → List α) (hf : ∀ k, (f k).length = 3) (hwf : WF C)
+    (hlat : C.calculator.elastData.lattice.length = (vols C).length)
+    (hrow : ∀ row ∈ C.calculator.elastData.lattice, row.length = 3)
+    (h1 : lookup loc "_l1" = some (.mat C.calculator.elastData.lattice))
+    (h2 : lookup loc "_l2" = some (.mat ((List.range C.calculator.vArray.length).map f))) :
+    execLs C (Kn C (n + 2)) axBody ⟨attrs, ("_l3", .nat i) :: loc⟩
+      = (fitModulus (inputsOf C table) (C.calculator.elastData.lattice.map fun row => nth row i)).map (fun p =>
+          ⟨attrs, ("_l2", .mat ((List.range C.calculator.vArray.length).map fun k =>
+                      (f k).set i (nth (colF C.calculator.vArray.length p) k)))
+                  :: ("_l5", .ar (tmpOf p)) :: ("_l4", .ar p) :: ("_l3", .nat i) :: loc⟩) ∧
+    ∀ p : List α, 2 ≤ p.length →
+      nth (colF p.length p) 0 = (nth p 1 - nth p 0) / (nth p 1 + nth p 0) ∧
+      (∀ k, 0 < k → k + 1 < p.length →
+        nth (colF p.length p) k = (nth p (k + 1) - nth p (k - 1)) / (nth p (k + 1) + nth p (k - 1))) ∧
+      nth (colF p.length p) (p.length - 1)
+        = (nth p (p.length - 1) - nth p (p.length - 2)) / (nth p (p.length - 1) + nth p (p.length - 2)) :=
+  ⟨axial_iter C n attrs hw table loc i hi f hf hwf.vols_ne hwf.grid_ne hlat hrow h1 h2, fun p hp => colF_entries p hp⟩
+
+/-- **`__init__` + `calculate_phonon_contribution`** as translated: the logged `_get_init_strain()` is evaluated and dropped; the
+strains of `get_axial_strains()` and `self.modulus_keys` go to `resolve` of a fresh `PhononContributionTaskList(self.calculator)`, then
+`calculate()`, then the ADIABATIC results are stored under `_adiabatic_phonon_contribution` and the ISOTHERMAL ones under
+`_isothermal_phonon_contribution` (`builtAttrs`); any failure on the way is a failure of the construction -/
+theorem c05_glue_is_source_wiring (C : Ctx α) (n : Nat) (table : List (String × List α)) (hwf : WF C)
+    (hinit : ∃ v, callM cls C (n + 3) baseAttrs "_get_init_strain" [] = some (baseAttrs, v)) :
+    construct cls C (n + 5)
+      = (getAxialStrains (inputsOf C table)).bind fun e =>
+        (results C.phA e C.calculator.modulusKeys).bind fun dA =>
+        (results C.phI e C.calculator.modulusKeys).map fun dI => builtAttrs C e dA dI :=
+  construct_src C n table hwf hinit
+
+/-- `_get_init_strain()`: equal thirds when the settings have no `init_strain` entry (the schema allows none), the entry divided by
+its sum otherwise — and its value goes nowhere but the log line: it is called exactly once in the class, inside a `log` statement -/
+theorem c05_glue_is_source_init_strain (C : Ctx α) (n : Nat) (attrs : Env α) (hw : Wired attrs) (hc : HasElastSettings C)
+    (h1 : C.calculator.cfgLeaf ["elast", "settings", "init_strain"] = none)
+    (h2 : C.calculator.cfgSection ["elast", "settings", "init_strain"] = false) :
+    callM cls C (n + 1) attrs "_get_init_strain" [] = some (attrs, .ar [1 / 3, 1 / 3, 1 / 3]) ∧
+    (cls.flatMap fun m => m.selfCalls).count "_get_init_strain" = 1 ∧
+    m_calculate_phonon_contribution.body.head? = some (.log [.callSelf0 "_get_init_strain"]) :=
+  ⟨init_strain_absent_src C n attrs hw hc h1 h2, by decide +kernel, by decide +kernel⟩
+
+/-- **`modulus_adiabatic` / `modulus_isothermal`** on the constructed object = the model's `modulusTotal` per key: a fresh dictionary
+holding, for every key of `self.modulus_keys`, `get_static_modulus(key)[nax, :]` + the ADIABATIC (resp. ISOTHERMAL) task-list result of
+that key for the axial strains of `get_axial_strains()` — total = static[v] + phonon[t][v].  (`hshape`: the task list returns arrays
+with one column per grid volume; `htab`: the model's table holds each requested key's column under its name.) -/
+theorem c05_glue_is_source_total (C : Ctx α) (n : Nat) (table : List (String × List α)) (name : Key → String) (phA phI : Phonon α)
+    (hA : ∀ e k, C.phA e k = phA e (name k)) (hI : ∀ e k, C.phI e k = phI e (name k))
+    (hwf : WF C) (htab : ∀ k ∈ C.calculator.modulusKeys, table.lookup (name k) = columnOf C k)
+    (hshape : ∀ e k p, (C.phA e k = some p ∨ C.phI e k = some p) → ∀ row ∈ p, row.length = C.calculator.vArray.length)
+    (e : List (List α)) (dA dI : List (Key × List (List α))) (he : getAxialStrains (inputsOf C table) = some e)
+    (hdA : results C.phA e C.calculator.modulusKeys = some dA) (hdI : results C.phI e C.calculator.modulusKeys = some dI) :
+    callV cls C (n + 4) (builtAttrs C e dA dI) "modulus_adiabatic" []
+      = (allSomeL (C.calculator.modulusKeys.map fun k => (modulusTotal (inputsOf C table) phA (name k)).map fun m => (k, m))).map
+          (fun l => .dict l.reverse) ∧
+    callV cls C (n + 4) (builtAttrs C e dA dI) "modulus_isothermal" []
+      = (allSomeL (C.calculator.modulusKeys.map fun k => (modulusTotal (inputsOf C table) phI (name k)).map fun m => (k, m))).map
+          (fun l => .dict l.reverse) := by
+  have hw := builtAttrs_wired C e dA dI
+  obtain ⟨sA, sI⟩ := builtAttrs_stores C e dA dI
+  unfold callV
+  rw [total_src C n _ hw table hwf.vols_ne "modulus_adiabatic" "_adiabatic_phonon_contribution" m_modulus_adiabatic find_adiabatic rfl
+        adiabatic_body isProp_adiabatic_store dA sA,
+      total_src C n _ hw table hwf.vols_ne "modulus_isothermal" "_isothermal_phonon_contribution" m_modulus_isothermal find_isothermal rfl
+        isothermal_body isProp_isothermal_store dI sI]
+  constructor
+  · rw [allSomeL_congr (totalEntry C table dA) (fun k => (modulusTotal (inputsOf C table) phA (name k)).map fun m => (k, m))
+      C.calculator.modulusKeys (fun k hk => totalEntry_model C table name phA C.phA hA e he dA k
+        (results_lookup C.phA e _ dA hdA k hk) (htab k hk) (fun p hp => hshape e k p (Or.inl hp)))]
+    cases allSomeL (C.calculator.modulusKeys.map fun k => (modulusTotal (inputsOf C table) phA (name k)).map fun m => (k, m)) <;> rfl
+  · rw [allSomeL_congr (totalEntry C table dI) (fun k => (modulusTotal (inputsOf C table) phI (name k)).map fun m => (k, m))
+      C.calculator.modulusKeys (fun k hk => totalEntry_model C table name phI C.phI hI e he dI k
+        (results_lookup C.phI e _ dI hdI k hk) (htab k hk) (fun p hp => hshape e k p (Or.inr hp)))]
+    cases allSomeL (C.calculator.modulusKeys.map fun k => (modulusTotal (inputsOf C table) phI (name k)).map fun m => (k, m)) <;> rfl
+
+/-- **`Calculator._calculate_pressure_static`** as translated = the model's `staticPressure` on the strains of the PHONON file's volumes
+and of the grid (both referred to that file's first volume), its static energies, qha's least squares of the given order (default of the
+source: 3) and `− numpy.gradient(E) / numpy.gradient(v_array)` stored as `static_p_array` -/
+theorem c05_glue_is_source_static_pressure (C : Ctx α) (k : Nat) (hq : qvols C ≠ []) :
+    runOnCalc C pressureStatic [.nat k]
+      = (staticPressure ((qvols C).map (C.strain (nth (qvols C) 0))) (qenergies C)
+            (C.calculator.vArray.map (C.strain (nth (qvols C) 0))) C.calculator.vArray k).map (fun p =>
+          ([("static_p_array", .ar p), ("v_array", .ar C.calculator.vArray), ("qha_input", .qha)], .unit)) ∧
+    runOnCalc C pressureStatic [] = runOnCalc C pressureStatic [.nat Generated.staticPressureDefaultOrder] :=
+  ⟨pressure_src C k hq, pressure_default_src C⟩
+
+/-- non-vacuity of the `c05_glue_…` hypotheses: a concrete calculator over ℚ (5 table rows with a lattice block, 7 grid volumes, a
+settings tree without `init_strain`) is well-formed, its base attributes are wired, the logged `_get_init_strain()` evaluates, and the
+translated `get_static_modulus` / `get_axial_strains` / construction / totals all ANSWER on it (kernel evaluation of the interpreter) -/
+example : WF glueExample ∧ Wired (baseAttrs : Env ℚ) ∧ HasElastSettings glueExample ∧
+    (callV cls glueExample 5 baseAttrs "get_static_modulus" [.key (.raw "c11")]).isSome = true ∧
+    (callV cls glueExample 5 baseAttrs "get_axial_strains" []).isSome = true ∧
+    ((construct cls glueExample 6).bind fun a => callV cls glueExample 5 a "modulus_isothermal" []).isSome = true ∧
+    (runOnCalc glueExample pressureStatic []).isSome = true :=
+  ⟨⟨by decide +kernel, by decide +kernel, Or.inr ⟨by decide +kernel, by decide +kernel⟩⟩, wired_base,
+   ⟨rfl, rfl, rfl, rfl⟩, by decide +kernel, by decide +kernel, by decide +kernel, by decide +kernel⟩
+
+end Glue
+
+/-- **`fit_modulus` of full_modulus.py against its sibling in `cij/cli/static.py`** (both as translated on this run): the two differ
+exactly in what they should — here `volumes * c` is fitted instead of `c`, with `numpy.polyfit` of degree `order + 1` instead of qha's
+`polynomial_least_square_fitting` of order `order`, and the fit is divided by `v_array`; the Eulerian strains are the same two
+expressions of the same two arrays (`self.volumes` ↦ `volumes`, `self.v_array` ↦ `v_array`).  Semantically (any scalars with the
+operations) and syntactically (the trees). -/
+theorem c05_glue_fit_vs_static_fit {α : Type} [Add α] [Sub α] [Mul α] [Div α] [Neg α] [OfNat α 0] [OfNat α 1] [NatCast α]
+    [LE α] [DecidableLE α] [LT α] [DecidableLT α] [BEq α]
+    (I : Cij.StaticSrc.Inp α) (hfit : I.fit = polynomialLeastSquareFitting) (v0 : α) (rest vArray m : List α) (k : Nat)
+    (tbl : List (String × List α)) (lat : List (List α)) (gpa : α) :
+    fitModulus ⟨(v0 :: rest).map (I.E.strain v0), vArray.map (I.E.strain v0), v0 :: rest, vArray, tbl, lat, gpa⟩ m k
+      = ((Cij.StaticSrc.callFun I Generated.staticFitModulus
+            [.ar (v0 :: rest), .ar vArray, .ar (List.zipWith (fun v c => v * c) (v0 :: rest) m), .nat (k + 1)]).bind
+          Cij.StaticSrc.Val.toAr).map (fun r => List.zipWith (fun a b => a / b) r vArray) ∧
+    ∃ S SA : Cij.FMGlue.X,
+      Cij.FMGlue.inlineRet [] Generated.FullModulusGlue.m_fit_modulus.body
+        = some (.div (.fn2 "numpy.polyval" (.fn3 "numpy.polyfit" S (.mul (.self ["volumes"]) (.param "moduli"))
+            (.add (.param "order") (.lit 1))) SA) (.self ["v_array"])) ∧
+      (do let s ← Cij.FMGlue.toStatic S; let sa ← Cij.FMGlue.toStatic SA
+          pure (Cij.StaticSrc.X.lsq s (.loc "moduli") sa (.loc "order"))) = some Generated.staticFitModulus.ret ∧
+      S.selfReads = [["volumes"], ["volumes"]] ∧ SA.selfReads = [["volumes"], ["v_array"]] :=
+  ⟨Cij.FMGlue.fit_vs_static_fit I hfit v0 rest vArray m k tbl lat gpa, Cij.FMGlue.fit_trees_differ_exactly⟩
+
+/-- **`_from_gpa` as used here**: full_modulus.py imports it from `cij.util`, which re-exports `cij.util.units._from_gpa`; that helper
+(translated by static_src.py) converts GPa into rydberg / bohr³, and with the SI values of the three units its factor is the model's
+`gpaInAtomicUnits` (the constant of `gpa_factor`) -/
+theorem c05_glue_is_source_gpa (base : String → ℝ) (ry a0 : ℝ) (hG : base "GPa" = 10 ^ 9) (hr : base "rydberg" = ry)
+    (hb : base "bohr" = a0) :
+    Generated.FullModulusGlue.unitReexports.lookup "_from_gpa" = some "cij.util.units._from_gpa" ∧
+    Generated.FullModulusGlue.imports.lookup "_from_gpa" = some "cij.util._from_gpa" ∧
+    ∃ h, Cij.StaticSrc.unitHelper? "_from_gpa" = some h ∧ h.factor base = Cij.FullModulus.gpaInAtomicUnits ry a0 := by
+  refine ⟨by decide +kernel, by decide +kernel,
+    ⟨"_from_gpa", .u "GPa", .div (.u "rydberg") (.pow (.u "bohr") 3 1)⟩, by decide +kernel, ?_⟩
+  simp only [Cij.StaticSrc.UnitHelper.factor, Cij.StaticSrc.UExpr.val, hG, hr, hb, Cij.FullModulus.gpaInAtomicUnits]
+  rw [Nat.cast_one, div_one, Real.rpow_natCast]
 
 /-! #### ties shared with other properties
 
